@@ -173,6 +173,30 @@ func (dm *DMap) loadOrCreateFragment(part *partitions.Partition) (*fragment, err
 	return f, nil
 }
 
+// loadOrCreateAndLockFragment returns the fragment with its write lock held. The janitor
+// wipes out empty fragments under the fragment's lock. A caller that loaded the fragment
+// and then waited for the lock may end up with a fragment that has been closed and unlinked
+// from the partition in the meantime: everything written to it would be lost silently.
+// So check the fragment after acquiring the lock and start over if it is gone.
+func (dm *DMap) loadOrCreateAndLockFragment(part *partitions.Partition) (*fragment, error) {
+	for {
+		f, err := dm.loadOrCreateFragment(part)
+		if err != nil {
+			return nil, err
+		}
+		verifhook.Point(dm.s.rt.This().Name, "put.before-lock")
+		f.Lock()
+		select {
+		case <-f.ctx.Done():
+			// Closed by the janitor or Destroy. Try again with a new fragment.
+			f.Unlock()
+			continue
+		default:
+		}
+		return f, nil
+	}
+}
+
 func (dm *DMap) loadFragment(part *partitions.Partition) (*fragment, error) {
 	f, ok := part.Map().Load(dm.fragmentName)
 	if !ok {
